@@ -111,7 +111,7 @@ func runCrowded(c *Ctx, sh *shared, dir string) {
 			if st, err := WorkStatus(a.Sock, cp.name, 5*time.Second); err == nil {
 				l.status[cp.name] = viewOf(st)
 			}
-			got, ended, err := WorkResults(a.Sock, cp.name, 0, 6*time.Second)
+			got, ended, err := WorkResults(a.Sock, cp.name, 0, 20*time.Second)
 			switch {
 			case err != nil:
 				l.results[cp.name] = "error:" + err.Error()
